@@ -14,6 +14,11 @@ func H_recompile(v int) {
 		{"{namespace a}\n{template .t}\n{@param title: string}\n{$title}{call .p /}\n{/template}\n{template .p}\n{@param q: string}\n({$q})\n{/template}\n", false},
 		{"{namespace a}\n/** @param title */\n{template .t}\n{$title}{call .p}{param q: $title /}{/call}\n{/template}\n/** @param q */\n{template .p}\n({$q})\n{/template}\n", true},
 		{"{namespace a}\n/** @param title\n @param unused */\n{template .t}\n{$title}\n{/template}\n", false},
+		// templates without a soydoc comment that follow a documented template
+		{"{namespace a}\n/** @param a */\n{template .t}\n{$a}\n{/template}\n{template .p}\n{@param q: string}\n({$q})\n{/template}\n", true},
+		{"{namespace a}\n/** @param a */\n{template .t}\n{$a}\n{/template}\n{template .p}\nstatic\n{/template}\n", true},
+		{"{namespace a}\n/** @param a */\n{template .t}\n{$a}\n{/template}\n{template .p}\n{$a}\n{/template}\n", false},
+		{"{namespace a}\n/** @param a */\n{template .t}\n{$a}{call .p /}\n{/template}\n{template .p}\n{@param? q: string}\n({$q ?: ''})\n{/template}\n/** */\n{template .z}\nz\n{/template}\n", true},
 	}
 	b := NewBundle().AddTemplateString("f.soy", srcs[v].src)
 	for i := 0; i < 3; i++ {
